@@ -60,25 +60,7 @@ GTREES = [
 ]
 
 
-# ---- observation of the library --------------------------------------------------------------
-def impl_model(formula):
-    from formulae import model_description
-
-    m = model_description(formula)
-    common = []
-    for t in m.common_terms:
-        if type(t).__name__ == "Intercept":
-            common.append(())
-        elif type(t).__name__ == "NegatedIntercept":
-            common.append(("<NegatedIntercept>",))
-        else:
-            common.append(tuple(str(c.name) for c in t.components))
-    group = []
-    for t in m.group_terms:
-        e = () if type(t.expr).__name__ == "Intercept" else tuple(str(c.name) for c in t.expr.components)
-        group.append((e, tuple(str(c.name) for c in t.factor.components)))
-    resp = None if m.response is None else m.response.term.name
-    return resp, common, group
+from vf.observe import impl_model  # noqa: E402  pylint: disable=wrong-import-position
 
 
 # ---- structure predicates ----------------------------------------------------------------------
